@@ -10,7 +10,11 @@ Ties of the model to the code
     rc.load/count  RansacRigidTransformationModel::loadCorrespondences / countInliers on crafted sets
     icp.filter     sort + unique with the repository's predicates
   two passes (the harness observes oracle outputs of the REAL pipeline, tools feed them to the model, results compared):
-    rr.real        real draw() + countInliers(): errors recomputed from getTransformation() -> model bookkeeping
+    rr.real        real draw() + countInliers(): errors recomputed from getTransformation() -> model bookkeeping; and what the
+                   model's OWN sampler member holds behind loadPointSets (scale_) and behind EVERY real draw() (weights_,
+                   cumSumWeights_, engine) -> fresh Lean sampler, computeScale(min, max of the raw source points), one
+                   drawPoints(raw points, loaded correspondences, draw size) per draw() on the same state: BIT-EXACT. This ties
+                   the composition lean/RomeaModel/RansacSampled.lean (drawSampled / smpAfter) to RansacRigidTransformationModel::draw
     icp.match      find() capped at 1 iteration: raw nearest-neighbour pairs -> model filter == kept pairs
     icp.trace      find() with caps 1..10: per-iteration (estimate ok, rmse, T) -> model loop flag == returned flag
   regenerated constants: lean/RomeaModel/Generated/ConstantsC06.lean, pinned by theorems.
@@ -59,8 +63,10 @@ TRUSTED = ['tools/cxx2lean.py translates the RansacIterations constructor / upda
            'real code, not a theorem']
 ASSUMPTIONS = ['theorems about the control skeleton take the remaining geometry (candidate transformations, per-correspondence errors, '
                'nearest neighbours) as universally quantified oracle outputs; counts below 2^24 (size_t -> float). The sampler is INSIDE '
-               'the model (engine, generate_canonical, cumulative weights, lower_bound, weight update) but is not yet composed with the '
-               'skeleton: RansacRigidTransformationModel::draw still enters the loop theorems as an oracle',
+               'the model (engine, generate_canonical, cumulative weights, lower_bound, weight update) and COMPOSED with the skeleton '
+               '(RomeaModel/RansacSampled.lean: draw threads the sampler state through the iterations); what is still an oracle of the '
+               'composed theorems is the geometry behind a drawn sample (compute_, check_, the errors), a function of the call number and '
+               'of the drawn indexes',
                'sampler theorems: exact reals for weights and coordinates (no rounding; exp is the real exponential), engine arithmetic '
                'exact (Nat); hypotheses: legitimate engine state (proved invariant from every seed), non-negative correspondence weights, '
                'and for the distinct-target claim a positive weight at every draw (NoCollapse) -- discharged for one-to-one lists with '
@@ -73,7 +79,9 @@ ASSUMPTIONS = ['theorems about the control skeleton take the remaining geometry 
                'ICP probe: sigma = 0.2, LEAST_SQUARES method, identity guess, as in test/transform/test_transform.cpp']
 EXPLANATION = ('partial: Lean theorems on the RANSAC/ICP control skeleton and bookkeeping and on the sampler with its random engine '
                '(minstd_rand0 never sticks, variates in (0,1), cumulative weights / lower_bound = inverse CDF, drawn index in bounds with '
-               'positive weight, weights within [0,1] x initial, drawn targets zeroed hence pairwise distinct, determinism per object) + '
+               'positive weight, weights within [0,1] x initial, drawn targets zeroed hence pairwise distinct, determinism per object) and on '
+               'their composition (the composed run is a skeleton run; engine advances 2 x draw size x iterations, never reseeded; every '
+               'candidate from distinct-target samples under NoCollapse; whole-run determinism) + '
                'scripted/observed differential ties, the sampler tie bit-exact on all eight point types + regenerated constants; the '
                'convergence envelope on scan2d.txt and the synthetic-outlier claim are probed, not proved')
 
@@ -1028,6 +1036,10 @@ def extra_probe(ctx, stats):
                 jobs.append((ci, op, line, mlines, exp, None))
             elif op == 'rr.real':
                 ty, sigma, n = tk[1], tk[2], int(tk[4])
+                smp_trail = []
+                if 'sampler' in f:           # what the model's own sampler member held behind every real draw()
+                    cut = f.index('sampler')
+                    smp_trail, f = f[cut:], f[:cut]
                 mlines = ['rc.load %s %d %s' % (ty, n, ' '.join('%d %d %s' % (j, j, D(0.0)) for j in range(n)))]
                 exp = [None]
                 pad = ' '.join([D(0.0)] * _dim(ty))
@@ -1044,6 +1056,8 @@ def extra_probe(ctx, stats):
                     exp.append(' '.join(f[j:k]))
                     i = k
                 jobs.append((ci, op, line, mlines, exp, None))
+                if smp_trail:
+                    jobs.append(_rr_sampler_job(ctx, ci, line, tk, smp_trail))
         except Exception as e:
             fails.append({'kind': 'tie2-malformed', 'detail': '%s: %r' % (line[:120], e), 'fields': {}, 'case_index': ci})
     text = ''.join('#case %d\n%s\n' % (i, '\n'.join(j[3])) for i, j in enumerate(jobs))
@@ -1067,6 +1081,11 @@ def extra_probe(ctx, stats):
                     good = m.split()[:2] == ['flag', e]
                 elif op == 'icp.match':
                     good = compare({'meta': {'ties': True}}, 0, mlines[k], e, m)
+                elif op == 'rr.real.smp':
+                    # bit-exact; the C++ sample is local to draw(): the drawn indexes are compared through weights_ (zero exactly
+                    # on the drawn targets, down-weighted by each drawn point in drawing order), cumSumWeights_ and the engine
+                    mt = m.split()
+                    good = (('w' in mt and mt[mt.index('w'):] == e.split()) if mlines[k].startswith('smp.draw') else m == e)
                 else:
                     good = compare({'meta': {}}, 0, mlines[k], e, m)
                 stats['tie2_lines'] = stats.get('tie2_lines', 0) + 1
@@ -1080,6 +1099,40 @@ def extra_probe(ctx, stats):
             fails.append({'kind': 'tie2-disagreement', 'detail': '%s: %s -- %s' % (op, line[:100], detail), 'fields': {'op': op},
                           'case_index': ci})
     return fails
+
+
+def _rr_sampler_job(ctx, ci, line, tk, trail):
+    """model-side replay of what RansacRigidTransformationModel::draw does with its sampler member in an rr.real op: a fresh sampler,
+    computeScale(min, max of the raw source points) (loadPointSets), then per draw() ONE drawPoints(raw source points, the
+    correspondences as loaded (j, j, weight 1), getNumberOfPointsToDrawModel()) on the same object -- the composition
+    RomeaModel/RansacSampled.lean models (drawSampled / smpAfter)"""
+    ty, n = tk[1], int(tk[4])
+    dim = _dim(ty)
+    size = dim + 1 if ty[0] == 'h' else dim
+    coords = tk[5:]
+    src = [coords[2 * dim * j: 2 * dim * j + dim] for j in range(n)]
+    lo = [min(src, key=lambda p, d=d: tok_val(p[d]))[d] for d in range(dim)]
+    hi = [max(src, key=lambda p, d=d: tok_val(p[d]))[d] for d in range(dim)]
+    consts = scrape(ctx['repo'])[0]
+    k = consts['drawPoints2D'] if dim == 2 else consts['drawPoints3D']
+    assert trail[0] == 'sampler' and trail[1] == 'scale'
+    scale = trail[2:2 + size]
+    rest = trail[2 + size:]
+    draws, cur = [], None
+    for x in rest:
+        if x == 'smpdraw':
+            cur = []
+            draws.append(cur)
+        else:
+            cur.append(x)
+    mlines = ['smp.new %s' % ty, 'smp.pts %d %s' % (n, ' '.join(c for p in src for c in p)),
+              'smp.scale %s %s' % (' '.join(lo), ' '.join(hi)),
+              'smp.corr %d %s' % (n, ' '.join('%d %d %s' % (j, j, D(1.0)) for j in range(n)))]
+    exp = [None, None, 'scale ' + ' '.join(scale), None]
+    for d in draws:
+        mlines.append('smp.draw %d' % k)
+        exp.append(' '.join(d))
+    return (ci, 'rr.real.smp', line, mlines, exp, None)
 
 
 def _icp_eps(ctx):
